@@ -43,14 +43,15 @@ def build_case(seed):
     rnd = random.Random(seed)
     if seed % 2 == 0:
         return build_spread_case(rnd, seed)
-    n = rnd.randint(12, 45)
+    long_case = seed % 50 == 7          # long molecules (70-150 labels): size-dependent code paths
+    n = rnd.randint(90, 160) if long_case else rnd.randint(12, 45)
     ref, x = [], rnd.randint(1000, 4000)
     repeat_unit = [rnd.randint(2200, 9000) for _ in range(rnd.randint(1, 3))] if rnd.random() < 0.35 else None
     for i in range(n):
         ref.append(x)
         x += repeat_unit[i % len(repeat_unit)] if repeat_unit and rnd.random() < 0.8 else rnd.randint(2000, 16000)
-    a = rnd.randint(0, n // 3)
-    b = rnd.randint(a + 8, n)
+    a = rnd.randint(0, n // 3) if not long_case else rnd.randint(0, 10)
+    b = rnd.randint(a + 8, n) if not long_case else rnd.randint(a + 70, n)
     q = [p - ref[a] for p in ref[a:b]]
     kind = rnd.choice(('stretch', 'stretch', 'indel', 'indel', 'repeat_expand', 'plain'))
     if kind == 'stretch':
